@@ -589,7 +589,7 @@ def jobs(tier, seed):
                  dict(maxlen=12 if not thorough else 24), timeout=1200,
                  cost=10))
   out.append(Job('round_trips', round_trips,
-                 dict(bits=40 if not thorough else 48,
-                      maxlen=4 if not thorough else 5), timeout=2400,
+                 dict(bits=40,
+                      maxlen=4 if not thorough else 6), timeout=2400,
                  cost=20))
   return out
